@@ -3,6 +3,7 @@ package main
 // SMT term construction helpers and the solver portfolio.
 
 import (
+	"sync/atomic"
 	"bytes"
 	"context"
 	"fmt"
@@ -176,9 +177,13 @@ var solverSem = make(chan struct{}, 14)
 
 // runPortfolio races the installed solvers on the query; the first definite answer wins.
 // When all==true every solver must finish and any sat/unsat disagreement is an error.
+var queryCounter int64
+
 func runPortfolio(dir, name, query string, getvals []string, timeoutS int, all bool) SolverResult {
 	os.MkdirAll(dir, 0o755)
-	base := filepath.Join(dir, sanitize(name))
+	// one file per query: obligations of an inlined callee carry the same name under every function that inlines it,
+	// and the queries run concurrently
+	base := filepath.Join(dir, fmt.Sprintf("%05d_%s", atomic.AddInt64(&queryCounter, 1), sanitize(name)))
 	// cvc5 wants set-logic first; z3 is happier without.
 	z3q := "(set-option :produce-models true)\n" + query
 	cvq := "(set-logic ALL)\n" + query
